@@ -344,6 +344,8 @@ def x_c20(run):
 
 POOL_FAM = dict(family="pool", variant="asm", kview=lambda l: l.split(" ; ")[0].strip(), nontrivial=lambda c, i: "/" in i,
                 judge=j_notes(r"$^", "", ""))
+T_OBJ = T("C14obj", "fast_object", "hc_object", "hc_object_inv", "hcInv_reach", "hc_after_flag", "fast_view_reset",
+          kind="compressor OBJECTS: every call on every reused / pooled object (any table contents left by earlier calls, failed ones included) is the per-call function")
 T_POOL = T("Pool", "reach_inv", "get_size", "inv_put", "inv_get", "inv_drop", "put_foreign", "put_slice",
            kind="the shared block-buffer pools keep their size classes after every Get/Put/drop history (what the Reader's cap(b.data) bound rests on)")
 CR_FAM = dict(family="cr", variant="asm", kview=kview_w, nontrivial=nontrivial_sess,
@@ -388,15 +390,15 @@ PROPS = {
     "C05": dict(runs=[FR("frmut", judge=j_c05), FR("fr", judge=j_c05), POOL_FAM], theorems=T_C05 + T_POOL),
     "C06": dict(runs=[FR("frtrunc", judge=j_c06)], theorems=T_C06 + T_C06r),
     "C07": dict(runs=[FR("frhost", judge=j_c07), FR("frmut", judge=j_c07), POOL_FAM], theorems=T_POOL + T_C07 + T("C19", "c19_bad_magic") + T("C08", "R.progress", "R.terminates", "R.noleak")),
-    "C09": dict(runs=[FW("fw", judge=j_c09), CR_FAM], theorems=T_C09 + T_C09leg + T_C18),
+    "C09": dict(runs=[FW("fw", judge=j_c09), CR_FAM, FW("fwlife", judge=j_c09), dict(CMP, judge=j_c10)], theorems=T_C09 + T_C09leg + T_C18),
     "C15": dict(runs=[FW("fwfail", judge=j_c15w), FR("frfail", judge=j_c15r)], theorems=T_C15 + T_C15r),
     "C16": dict(runs=[FR("fr", judge=j_c16)], theorems=T("C16", "c16_writeTo", "c16_read", "c16_read_no_error", kind=_K64)),
     "C17": dict(runs=[FW("fwlife", judge=j_c17w, env={"VERIF_SCHED": "6"}), FR("fr", judge=j_c17r)], theorems=T_C17),
-    "C01": dict(runs=[dict(CMP, judge=j_c01)], theorems=T_C01rt + T_FAST + T_HC),
+    "C01": dict(runs=[dict(CMP, judge=j_c01)], theorems=T_C01rt + T_FAST + T_HC + T_OBJ),
     "C03": dict(runs=[dict(DEC_ASM, judge=j_c03), dict(DEC_GO, judge=j_c03), dict(GUARD_ASM, judge=j_c03), dict(GUARD_GO, judge=j_c03)], theorems=T("C04go", "c03_go") + T("C03asm", "c03_asm")),
     "C04": dict(runs=[dict(DEC_ASM, judge=j_c04), dict(DEC_GO, judge=j_c04)], theorems=T_GO + T_ASM),
     "C10": dict(runs=[dict(CMP, judge=j_c10)], theorems=T("C01fast", "c11_fast") + T("C01hc", "c11_hc")),
-    "C11": dict(runs=[dict(CMP, judge=j_c11)], theorems=T("C01fast", "c11_fast") + T("C01hc", "c11_hc")),
+    "C11": dict(runs=[dict(CMP, judge=j_c11)], theorems=T("C01fast", "c11_fast") + T("C01hc", "c11_hc") + T_OBJ),
     "C18": dict(runs=[CR_FAM], theorems=T_C18),
     "C19": dict(runs=[HDR_FAM], theorems=T_C19, exhaustive_thorough=True),
     "C12": dict(runs=[dict(DEC_ASM, judge=j_c12), dict(DEC_GO, judge=j_c12)], extra=[x_c12],
@@ -405,7 +407,7 @@ PROPS = {
                       FR("frck", judge=j_notes(r"EXPECTED-\S+|WRONG-CONTENT|TRUNC-ACCEPTED|NOT-PREFIX", "a wrong header / block / content checksum is not reported as such", "each checksum is verified against XXH32 of the bytes the format designates"))],
                 extra=[x_c13_4g],
                 theorems=T("C13", "oneshot", "stream", "stream_reset") + T("C19", "c19_accept_iff", "c19_spec") + T("C09", "c09_writer")),
-    "C14": dict(runs=[dict(CMP, judge=j_c14b), FW("conc", judge=j_c08, env={"VERIF_SCHED": "4"}), FW("fw", judge=j_c02w, env={"VERIF_SCHED": "5"}),
+    "C14": dict(runs=[dict(CMP, judge=j_c14b), FW("conc", judge=j_c08, env={"VERIF_SCHED": "4"}), FW("fw", judge=j_and(j_c02w, j_notes(r"DIFFERS-FROM-FRESH-WRITER", "the frame depends on how the stream was split into Write calls / on the object's past", "one frame per (options, data)")), env={"VERIF_SCHED": "5"}),
                       FW("fwlife", judge=j_c17w)],   # the output is a function of options and data, whatever the object did before
-                extra=[x_c14_groups], theorems=T_C14 + T("C08", "W.order_final")),
+                extra=[x_c14_groups], theorems=T_C14 + T_OBJ + T("C08", "W.order_final")),
 }
